@@ -154,7 +154,7 @@ def _tol(dtype):
     return 2e-5 if np.dtype(dtype) in (np.dtype("float32"), np.dtype("complex64")) else 1e-10
 
 
-def _same_values(case, got, exp, what, rtol):
+def _same_values(case, got, exp, what, rtol, scale=None):
     got = np.asarray(got)
     if tuple(got.shape) != tuple(np.shape(exp)):
         raise core.Violation("%s: shape %s, expected %s" % (what, tuple(got.shape), tuple(np.shape(exp))), case)
@@ -168,7 +168,9 @@ def _same_values(case, got, exp, what, rtol):
         return
     exp = np.asarray(exp)
     err = np.max(np.abs(got.astype(np.complex128) - exp.astype(np.complex128)))
-    scale = max(1e-300, float(np.max(np.abs(exp))))
+    # `scale`: magnitude the rounding error of a correct implementation is relative to, when that is not max|exp|
+    # (sums with cancellation: the sum of the absolute values)
+    scale = max(1e-300, float(np.max(np.abs(exp))), float(scale or 0.0))
     if not err <= rtol * scale + 1e-300:
         raise core.Violation("%s: max error %.3g (relative %.3g) exceeds %.1g" % (what, err, err / scale, rtol), case)
 
@@ -265,7 +267,13 @@ def _check_bin(ctx, case, ds, arr, classes):
     out = _apply(ctx, case, ds, "bin", case["in_place"], **kw)
     red = case["reducer"].lower()
     exp = ref.bin_ref(arr, fba, red)
-    _same_values(case, out.array, exp, "bin(%s)" % red, _tol(case["dtype"]))
+    cond = None
+    if arr.dtype.kind in "fc" and arr.size:
+        # a float block sum is accurate relative to the sum of the magnitudes in the block, not to the (possibly
+        # cancelling) result: thorough-tier false alarm, DESIGN section 7
+        mags = np.asarray(ref.bin_ref(np.abs(arr).astype(np.float64), fba, red), dtype=np.float64)
+        cond = float(np.max(mags)) if mags.size else None
+    _same_values(case, out.array, exp, "bin(%s)" % red, _tol(case["dtype"]), scale=cond)
     eo, es = ref.bin_meta_ref(case["origin"], case["sampling"], fba)
     _meta(case, out, eo, es, "bin")
     # every block centre keeps its physical coordinate
